@@ -159,8 +159,14 @@ def render(am, world_box, class_name=None, strict_states=False, uid=None):
         def __init__(self):
             self.state = None
 
-        mattrs["__init__"] = __init__
-        out["model_cls"] = type(f"Model{uid}", (), mattrs)
+        if am.get("model_base") == "library":
+            # the model class derives from the library's own `Model` (a plain state holder) and adds the callbacks
+            from statemachine.model import Model
+
+            out["model_cls"] = type(f"Model{uid}", (Model,), mattrs)
+        else:
+            mattrs["__init__"] = __init__
+            out["model_cls"] = type(f"Model{uid}", (), mattrs)
     i = 0
     while f"listener{i}" in methods:
         prov = f"listener{i}"
